@@ -44,6 +44,12 @@ func H_C19_wellformed(v *V) {
 		wantCh = []string{C1}
 	}
 	tag += " value-name:" + refQuote(VN) + " env:" + refQuote(EK) + c19Sep(v) + `required:"true" hidden:"true"`
+	if v.Shape("attr") == 4 {
+		// the symbolic attribute closes the tag
+		D = v.String(lv)
+		tag = `long:"nm" required:"true" hidden:"true" value-name:"VN" env:"EK"` + c19Sep(v) + "description:" + refQuote(D)
+		wantDef, wantCh = nil, nil
+	}
 	data := vTagged(v, "s", []string{tag})
 	p := NewNamedParser("prog", None)
 	_, err := p.AddGroup("G", "", data)
